@@ -39,6 +39,8 @@ def run(ctx, entry_tu=ENTRY_TU, scope_label='production'):
     chk.rule('E4', 'the real call is the operand of the only return, executed exactly once on every path, nothing executes after it', floor=1)
     chk.rule('E5', 'on every path: init < store filename/argv/envp < log action < cleanup < real call; each stored value is the call\'s own parameter', floor=5)
     chk.rule('E6', 'no non-returning, process-replacing or signalling API is reachable from the interposer', floor=1)
+    chk.rule('E8', 'no unbounded recursion between the interposer and the real call: every call-graph cycle is a listed '
+                   'bounded recursion or cut by a re-entrancy guard', floor=1)
     chk.rule('E7', "the caller's path/argv/envp are only read: no store through them, never passed as non-const, environment never mutated", floor=3)
     chk.explanation = (
         'All paths of the two interposers and everything reachable from them through the resolved call graph '
@@ -69,6 +71,8 @@ def run(ctx, entry_tu=ENTRY_TU, scope_label='production'):
         check_interposer(ctx, prog, cg, summ, F, name, roles)
     check_readonly(ctx, prog, cg, [prog.func(n) for n in INTERPOSERS])
     cg.require_resolved(within=set(cg.reachable([prog.func(n) for n in INTERPOSERS])))
+    from rules.recursion import recursion_rule
+    recursion_rule(ctx, prog, cg, common.checked_reach(cg, prog), 'E8')
 
 
 def check_interposer(ctx, prog, cg, summ, F, name, roles):
